@@ -817,6 +817,11 @@ func (c *CR) Apply(l Label) bool {
 		if !w.Inf.Jobs.Deliver() {
 			return false
 		}
+	case "JCWatchBreak": // the JobConfig watch breaks: undelivered events are lost, the informer lists again (tombstones for deleted JobConfigs)
+		if w.Inf.JobConfigs.Pending() == 0 {
+			return false
+		}
+		w.Inf.JobConfigs.Resync(w.API.List("jobconfigs"))
 	case "Work":
 		if c.P.Stp != nil {
 			// the cron worker is its own goroutine in production; Work is atomic here (deviation named in spec/Cron.tla)
@@ -1237,6 +1242,9 @@ func CronMain(args []string) (interface{}, error) {
 				}
 				if w.Inf.JobConfigs.Pending() > 0 {
 					add(Label{A: "DeliverJC"}, 4)
+					if !*twin && rng.Intn(15) == 0 {
+						add(Label{A: "JCWatchBreak"}, 1)
+					}
 				}
 				if w.Inf.Jobs.Pending() > 0 {
 					add(Label{A: "DeliverJob"}, 3)
